@@ -107,6 +107,13 @@ def run(ctx):
                       "script": [{"op": "new_service", "s": "s1"}, {"op": "adopt", "p": "t1"}, {"op": "accept"}, {"op": "wait_running"}, {"op": "wait_start", "p": "s1"}, {"op": "end", "p": "s1", "how": "none"}, {"op": "polls", "n": 4},
                                  {"op": "new_service", "s": "s2", "ctx": "driver"}, {"op": "drop_service", "s": "s1"}, {"op": "wait_start", "p": "s2"}, {"op": "step", "p": "s2"}, {"op": "end", "p": "s2", "how": "none"}, {"op": "polls", "n": 1},
                                  {"op": "drop_service", "s": "s2"}, {"op": "new_service", "s": "s3", "ctx": "thread"}, {"op": "wait_start", "p": "s3"}, {"op": "polls", "n": 2}], "shape": "targeted-service-created-while-another-is-collected"})
+    # adopt() after the run has ended - by a failure or by shutdown() - queues the payload for a
+    # next start like before the first one: it neither raises nor starts anything
+    for late in scen.FLAVS:
+        for trig in ([{"op": "shutdown", "ctx": "thread", "wait": True}], [{"op": "end", "p": "f", "how": "exc:UserExc"}], [{"op": "sigint"}]):
+            extra.append({"seed": ctx.seed, "jitter": 0.0, "payloads": {"f": {"flavour": "threading"}, "a1": {"flavour": "asyncio", "cleanup": 1}, "late": {"flavour": late, "args": [1]}},
+                          "script": [{"op": "adopt", "p": "f"}, {"op": "adopt", "p": "a1"}, {"op": "accept"}, {"op": "wait_running"}, {"op": "wait_start", "p": "f"}, {"op": "wait_start", "p": "a1"}] + trig
+                          + [{"op": "wait_end"}, {"op": "adopt", "p": "late", "ctx": "thread", "force": True}, {"op": "sleep", "ms": 100}], "shape": "targeted-adopt-after-the-run-ended"})
     # a burst of adoptions from inside one synchronous step of a coroutine payload (nothing
     # can drain a hand-over buffer meanwhile): "for all numbers of payloads"
     for f, n in (("trio", 270), ("asyncio", 60)):
